@@ -96,7 +96,8 @@ Theorem C01_sim_sample_mosaic :
   (forall i e, nth_error ends i = Some e -> fst e = MAXC) ->
   incr chroms ->
   (forall (h : bool) c a e m, In c chroms -> 0 <= a -> a <= e -> e <= MAXC ->
-     exists g, gs p_pop (hap_of ha hb h) c a e m prev = Ok g /\ run_ok c (a - 1) g e /               forall p, a <= p <= e -> label_at g c p = lab h c p) ->
+     exists g, gs p_pop (hap_of ha hb h) c a e m prev = Ok g /\ run_ok c (a - 1) g e /\
+               forall p, a <= p <= e -> label_at g c p = lab h c p) ->
   forall h0 hdraws evs,
   chroms <> [] -> (length chroms <= length hdraws)%nat -> evs_ok chroms 0 (-1) evs ->
   exists out, sim_sample gs chroms ends p_pop ha hb prev h0 hdraws evs = Ok out /\ tiles chroms out /    Forall (good lab out) (plan chroms ends h0 hdraws evs).
